@@ -404,7 +404,7 @@ func (p *parser) error(msg string, offset, endOffset int) {
 func (p *parser) rune(r rune, opts CharsetOptions) charset {
 	p.set = append(p.set[:0], r, r)
 	cs := charset(p.set)
-	if opts.Fold {
+	if opts.Fold && (!opts.ScanBytes || r < 0x80) { // no case folding for non-ASCII in bytes mode
 		cs.fold(opts.ScanBytes)
 	}
 	return cs
